@@ -242,28 +242,31 @@ def specWidth (T : Tables) (fd : FontDict) (code : Int) : Rat :=
      | some w => w
      | none => missingWidth fd) * widthScale fd
 
+/-- Is the glyph name that the font's encoding gives to `code` in the judged domain of names?
+(Base-table names always are; only Differences / built-in names can fall outside.) -/
+def judgedEncName (T : Tables) (fd : FontDict) (code : Int) : Bool :=
+  match usesBuiltin T fd with
+  | some ff =>
+    match builtinName ff code with
+    | some nm => judgedName T.gl nm
+    | none => true
+  | none =>
+    match fd.enc with
+    | .dict _ diff =>
+      match lastAssigned (assignments 0 diff) code with
+      | some nm => judgedName T.gl nm
+      | none => true
+    | _ => true
+
 /-- Is the cell of `code` in the judged domain?  (Glyph name judged; ToUnicode map without the
 space / no-break-space clash.) -/
 def judgedCode (T : Tables) (fd : FontDict) (code : Int) : Bool :=
-  let nameOk : Bool :=
-    match usesBuiltin T fd with
-    | some ff =>
-      match builtinName ff code with
-      | some nm => judgedName T.gl nm
-      | none => true
-    | none =>
-      match fd.enc with
-      | .dict _ diff =>
-        match lastAssigned (assignments 0 diff) code with
-        | some nm => judgedName T.gl nm
-        | none => true
-      | _ => true
   match fd.toUnicode with
   | some es =>
     if nbspClash (tuDefs es) then false
     else match tuText (tuDefs es) code with
       | some _ => true
-      | none => nameOk
-  | none => nameOk
+      | none => judgedEncName T fd code
+  | none => judgedEncName T fd code
 
 end PdfVerif.SimpleFont.Spec
